@@ -410,12 +410,18 @@ func (l *Lexer) readSingleLineString(tok *token.Token) {
 		case runes.EOF:
 			tok.SetEnd(l.input.InputPosition, l.input.TextPosition)
 			return
-		case runes.QUOTE, runes.CARRIAGERETURN, runes.LINETERMINATOR:
+		case runes.QUOTE:
 			if escaped {
 				escaped = !escaped
 				continue
 			}
 
+			tok.SetEnd(l.input.InputPosition-1, l.input.TextPosition)
+			return
+		case runes.CARRIAGERETURN, runes.LINETERMINATOR:
+			// a single-line string never contains a line terminator, not even after a backslash
+			// (there is no such escape); the printer indents what follows a line break, so a
+			// string that swallowed one would not print back to itself
 			tok.SetEnd(l.input.InputPosition-1, l.input.TextPosition)
 			return
 		case runes.BACKSLASH:
